@@ -696,6 +696,20 @@ func TestVerifBoundedDecls(t *testing.T) {
 			}
 		}
 	}
+	// a provider that takes the SAME type twice (func NewCluster(primary, replica *DB)): two edges from one producer into
+	// two slots of one consumer - the enumeration below never repeats a requirement
+	for mask := 0; mask < 8 && len(res.Failures) < 4; mask++ {
+		for _, dup := range []int{0, 100} { // a provided type / an injector argument type
+			d := &decl{P: []declProvider{{Async: mask&1 != 0}, {Async: mask&2 != 0, Req: []int{dup, dup}}, {Async: mask&4 != 0, Req: []int{1, 0}}}, Return: 2}
+			for _, o := range [][]int{{0, 1, 2}, {2, 1, 0}, {1, 0, 2}} {
+				dd := *d
+				dd.Order = o
+				if !run(&dd) {
+					break
+				}
+			}
+		}
+	}
 	maxN := 3
 	if kvcTier() == "thorough" {
 		maxN = 4
@@ -828,7 +842,7 @@ func TestVerifBoundedDecls(t *testing.T) {
 		"labelled": "bounded - executed on the real planner (CreateInjector), not counted as proof", "evaluations": evals, "distinct_nontrivial": nontrivial,
 		"refused_planted_defects": refused, "samples": samples, "exhaustive": false, "violated_clauses": clauses,
 		"time_budget_s": budget.Seconds(), "enumeration_stopped_on_time_budget": enumStopped, "random_phase_stopped_on_time_budget": timedOut, "wall_s": time.Since(started).Seconds(),
-		"rule": fmt.Sprintf("declarations with <= %d providers enumerated in canonical form (<= 2 requirements each from earlier providers' results, extra result groups, bound interfaces, expanded struct fields, an argument type and context.Context; every Async / fallible / multi-value / Bind mask; struct expansion; every declaration order for <= 3 providers; the largest size thinned by the seed (1:10 quick, 1:3 thorough)), each also with planted back edges, a duplicate supplier, a struct expansion with two fields of one type and an orphan Struct; a fixed family of 2..5 input-free Async providers at different depths (comb of joiners, 4 shapes x 4 orders); plus %d seeded random declarations with up to %d providers; non-trivial = the plan has >= 2 threads, or a planted defect", maxN, rounds, bigN),
+		"rule": fmt.Sprintf("declarations with <= %d providers enumerated in canonical form (<= 2 requirements each from earlier providers' results, extra result groups, bound interfaces, expanded struct fields, an argument type and context.Context; every Async / fallible / multi-value / Bind mask; struct expansion; every declaration order for <= 3 providers; the largest size thinned by the seed (1:10 quick, 1:3 thorough)), each also with planted back edges, a duplicate supplier, a struct expansion with two fields of one type and an orphan Struct; a fixed family of 2..5 input-free Async providers at different depths (comb of joiners, 4 shapes x 4 orders); a provider that takes one type twice (8 Async masks x provided/argument type x 3 orders); plus %d seeded random declarations with up to %d providers; non-trivial = the plan has >= 2 threads, or a planted defect", maxN, rounds, bigN),
 	}
 	res.emit()
 }
